@@ -119,6 +119,8 @@ def obligations(tier, seed):
             "generic %s over %s" % (params["role"], params["enzyme"])
         for s in slack:
             n = F + s
+            if tier == "quick" and F > 40:
+                n = F  # the largest structures are decided at their minimal length in the quick tier
             obs.append(Ob("typing %s n=%d" % (label, n), ob_typing, dict(params, n=n), samples=3, cost=n ** 3,
                           group="typing " + label))
     for m in range(1, tier_pick(tier, 3, 4) + 1):
